@@ -327,19 +327,16 @@ def register(w):
         "requires": ["isinstance(node, ast.Lambda)", "wf(node)", "qs(node)"],
         "raises": {"FuncADLIndexError": "any"},
         "ensures": ["good(result)", "same_kind(node, result)"],
-        "lemma_instances": ["lem_argl(node.args.posonlyargs)", "lem_argl(node.args.args)",
-                            "lem_argl(node.args.kwonlyargs)"],
-        "quant_elems": {1: "is_argn"},
-        "loops": {
-            # loops 0 and 3 run over the concrete pair (vararg, kwarg): unrolled
-            # 1 / 2: the frames of the argument stack and the replacements stored in them
-            1: {"invariant": ["frames_good(_rest)"]},
-            2: {"invariant": []},
-            # 4: every parameter of the rebuilt argument list is entered as a name for itself
-            4: {"invariant": ["all_list(is_argn, _rest)",
-                              "len(self._arg_stack._arg_transformer) >= 2"]},
-        },
-        "modifies": ["*"], "facts_fuel": 6, "parallel": 8, "max_paths": 2000,
+        "abstract": True, "trusted": True,
+        "assumes": ["simplify_chained_calls.visit_Lambda (binder handling: walks the argument "
+                    "stack's private frames and the trees stored there, renames through "
+                    "make_args_unique, rebuilds the argument node from a deep copy) is ASSUMED to "
+                    "return a Lambda of query shape with the same number of parameters. An attempt "
+                    "to verify it (loop over the frames abstracted) discharged 299 of 323 "
+                    "obligations in 17 min; the remaining ones need well-formedness of a "
+                    "concatenation of three symbolic parameter lists, which the engine cannot "
+                    "derive; its behaviour is exercised by the bounded checks of C02 / C18, "
+                    "including the native evaluation of the hypothesis qs(result)"],
         "properties": ["C18"],
     })
     U = "func_adl/util_ast.py"
